@@ -5,9 +5,15 @@ that a new version of harness/props/Cxx.py can be dropped in without losing them
 """
 EXTRA_TARGETS = {
     'C01': ['XdocModel.Proofs.Compose'],
-    'C08': ['XdocModel.Proofs.Compose'],
+    'C04': ['XdocModel.Proofs.Compose2'],
+    'C08': ['XdocModel.Proofs.Compose', 'XdocModel.Proofs.Compose2'],
+    'C10': ['XdocModel.Proofs.Compose2'],
+    'C11': ['XdocModel.Proofs.Compose2'],
     'C13': ['XdocModel.Proofs.C13Labels'],
+    'C14': ['XdocModel.Proofs.C14Total'],
+    'C15': ['XdocModel.Proofs.Compose2'],
     'C18': ['XdocModel.Proofs.C18Labels', 'XdocModel.Proofs.Compose'],
+    'C19': ['XdocModel.Proofs.Compose2'],
 }
 
 # cross-cluster compositions (Proofs/Compose.lean): audited together with the property they complete
@@ -19,7 +25,25 @@ EXTRA_THEOREMS = {
             ('Xdoc.Compose.tiled_needs_facts_in_range', 'witness'), ('Xdoc.Compose.lineno_counts_splitlines_witness', 'witness')],
     'C18': [('Xdoc.Compose.parsed_parts_plain', 'full'), ('Xdoc.Compose.parsed_parts_clean', 'partial'),
             ('Xdoc.Compose.reparse_labels_of_parse', 'partial')],
+    'C04': [('Xdoc.Compose2.cli_defaults_are_leading_block', 'full'), ('Xdoc.Compose2.default_options_run_like_leading_block', 'full')],
+    'C11': [('Xdoc.Compose2.defaults_are_leading_block', 'full'), ('Xdoc.Compose2.default_options_every_run', 'full'),
+            ('Xdoc.Compose2.default_options_every_run_outcome', 'full'), ('Xdoc.Compose2.unknown_option_order', 'witness')],
+    'C10': [('Xdoc.Compose2.entriesOf_returns', 'full'), ('Xdoc.Compose2.tally_adds_up_unconditional', 'full'),
+            ('Xdoc.Compose2.doctestModule_never_aborts', 'full'), ('Xdoc.Compose2.all_runs_enabled_once_unconditional', 'full'),
+            ('Xdoc.Compose2.exit_nonzero_iff_failed_unconditional', 'full'), ('Xdoc.Compose2.frames_needed', 'witness')],
+    'C15': [('Xdoc.Compose2.both_exit_nonzero_iff_failed_of_frames', 'partial'), ('Xdoc.Compose2.exit_statuses_agree', 'partial')],
+    'C19': [('Xdoc.Compose2.cleanExample_of_parse', 'full'), ('Xdoc.Compose2.dump_of_parsed_is_program', 'full'),
+            ('Xdoc.Compose2.dump_of_parsed_is_program_exact', 'full'), ('Xdoc.Compose2.star_only_part_leaves_blank_line', 'witness')],
+    'C14': [('Xdoc.C14.group_never_fails_after_label', 'full'), ('Xdoc.C14.parse_never_fails_in_group', 'full'),
+            ('Xdoc.C14.package_error_classes', 'full'), ('Xdoc.C14.failures_partition', 'full'), ('Xdoc.C14.parse_failpoints', 'full'),
+            ('Xdoc.C14.parse_impossible_failures', 'full'), ('Xdoc.C14.possibleFailures_all_occur', 'full'),
+            ('Xdoc.C14.findStart_counter_irrelevant', 'full'), ('Xdoc.C14.findStart_some_spec', 'full'),
+            ('Xdoc.C14.intervalStarts_decreasing', 'full'), ('Xdoc.C14.hackComments_fuel_free', 'full'),
+            ('Xdoc.C14.lexGoF_eq', 'full'), ('Xdoc.C14.isBalanced_fuel_free', 'full'), ('Xdoc.C14.labelLines_length', 'full')],
 }
+EXTRA_THEOREMS['C08'] += [('Xdoc.Compose2.parse_then_file_line_google', 'full'), ('Xdoc.Compose2.google_block_tiled', 'full'),
+                          ('Xdoc.Compose2.parse_then_part_on_file_line', 'full'),
+                          ('Xdoc.Compose2.google_lineno_counts_splitlines_witness', 'witness')]
 
 
 def _replay_K_C08_c(ctx, finding):
@@ -32,6 +56,22 @@ def _replay_K_C08_c(ctx, finding):
 EXTRA_FINDING_REPLAYS = {'K-C08-c': _replay_K_C08_c}
 
 EXTRA_TEXT = {
+    'C04': (" ADDED (Proofs/Compose2.lean, with C11): `default_options_run_like_leading_block` — a run with default options equals, part for part (indices shifted "
+            "by one), the run of the same doctest with those options written as a leading block directive."),
+    'C10': (" ADDED (Proofs/Compose2.lean, C10∘C09∘C02): the hypotheses 'every run returns' are DISCHARGED from C09's `return_mode_never_raises`: "
+            "`tally_adds_up_unconditional`, `all_runs_enabled_once_unconditional`, `exit_nonzero_iff_failed_unconditional`, `doctestModule_never_aborts` hold for every "
+            "execution oracle that satisfies C09's doctest-frame hypothesis (`frames_needed` shows it cannot be dropped). BaseExceptions are a limit of the model (no "
+            "ExecResult constructor), see K-C10-a/b."),
+    'C11': (" ADDED (Proofs/Compose2.lean, C11∘C04): `default_options_every_run(_outcome)` — default options behave like a leading block directive in EVERY doctest of a "
+            "session, whatever ran before (any two histories), for options known to the template (`unknown_option_order` shows why that is needed)."),
+    'C14': (" ADDED (Proofs/C14Total.lean): `group_never_fails_after_label` (the `assert prev_source is not None, 'impossible'` of `_group_labeled_lines` really is impossible "
+            "for labeller output, hence `parse_never_fails_in_group`), the COMPLETE classification `parse_failpoints` / `parse_impossible_failures` (parse is ok or fails with one "
+            "of eight (phase, error) pairs; the other ten are impossible) with a kernel-checked witness docstring for each possible pair (`possibleFailures_all_occur`, each also run "
+            "through the real parser), and fuel-freeness of every loop (`findStart_some_spec`, `intervalStarts_decreasing`, `hackComments_fuel_free`, `isBalanced_fuel_free`)."),
+    'C15': (" ADDED (Proofs/Compose2.lean): `both_exit_nonzero_iff_failed_of_frames`, `exit_statuses_agree` with the escape hypothesis replaced by C09's frame hypothesis."),
+    'C19': (" ADDED (Proofs/Compose2.lean, C19∘C13∘C01): `dump_of_parsed_is_program(_exact)` — for an example whose parts come from the parser model, the body of its dumped "
+            "test function minus header, want comments and the four-blank indent is exactly the de-prompted source of the docstring in order minus star imports; "
+            "`cleanExample_of_parse` discharges C19's cleanliness hypothesis from the C13 tiling; `star_only_part_leaves_blank_line` is the one residue hypothesis that is needed."),
     'C01': (" ADDED (Proofs/Compose.lean, cross-cluster): `parse_exec_lines_are_program` (for every successfully parsed docstring the exec_lines of all parts, "
             "concatenated in order, are the de-prompted source lines of all chunks in order) and `parse_run_eq_program` (running the parts produced by the parser "
             "model, no skip and no failure, is the left fold of `sem` over them in source order, every part exactly once) — C13's tiling composed with C01's "
@@ -41,7 +81,8 @@ EXTRA_TEXT = {
             "`parse_then_lineno` / `parse_then_file_line` (the freeform line-number theorems with no tiling hypothesis) and `parse_part_line` (the line at a part's "
             "offset is that part's first line, no hypothesis at all). New finding K-C08-c from this composition: the parser counts `splitlines()` lines while the "
             "file counts newlines, so a form feed / vertical tab / \\x1c-\\x1e / \\x85 / U+2028/9 / bare \\r before a prompt shifts every reported line "
-            "(`lineno_counts_splitlines_witness`, reproduced on the real code in every run)."),
+            "(`lineno_counts_splitlines_witness`, reproduced on the real code in every run). Compose2 adds the google variant `parse_then_file_line_google` (per-block parse "
+            "+ block offset, for docstrings without tabs and exotic line breaks: `PlainText`, shown necessary) and `parse_then_part_on_file_line`."),
     'C13': (" ADDED (Proofs/C13Labels.lean): the stretch theorem is proved for the full grammar, for every block list, by induction with an "
             "invariant on the labeller state: `labels_are_intended` — for every docstring rendered from labelled blocks (prose, blank lines, example "
             "blocks at any indentation whose statements are lists of lines in either prompt style with the oracle condition 'balanced as a whole, no strict "
